@@ -143,7 +143,7 @@ Section WithLibm.
         match ot_ui T op with
         | UI_neg => Ok (Some (VInt (wrap32 (- x))))
         | UI_not => Ok (Some (VInt (b2z (x =? 0))))
-        | UI_bitnot => Ok (Some (VInt (Z.lnot x)))
+        | UI_bitnot => Ok (Some (VInt (wrap32 (Z.lnot x))))
         | UI_id => Ok (Some (VInt x))
         | UI_tofloat => Ok (Some (VFloat (i2f x)))
         | UI_none => Ok None
@@ -156,7 +156,7 @@ Section WithLibm.
         | UF_libm f => Ok (Some (VFloat (libm f x)))
         | UF_sqrt => Ok (Some (VFloat (fsqrt x)))
         | UF_toint => Ok (Some (VInt (f2i x)))
-        | UF_id => Ok (Some (VFloat (fcanon x)))
+        | UF_id => Ok (Some (VFloat x))
         | UF_none => Ok None
         | UF_typeerr => Panic P_TYPE
         | UF_unrec => Panic P_UNREC
